@@ -532,10 +532,10 @@ class QuicConnection:
 
         :param now: The current time.
         """
-        network_path = self._network_paths[0]
-
-        if self._state in END_STATES:
+        # A server has no network path until it has accepted a first packet.
+        if self._state in END_STATES or not self._network_paths:
             return []
+        network_path = self._network_paths[0]
 
         # build datagrams
         builder = QuicPacketBuilder(
@@ -885,9 +885,18 @@ class QuicConnection:
 
             # Server initialization.
             if not self._is_client and self._state == QuicConnectionState.FIRSTFLIGHT:
-                assert header.packet_type == QuicPacketType.INITIAL, (
-                    "first packet must be INITIAL"
-                )
+                if header.packet_type != QuicPacketType.INITIAL:
+                    # The first packet must be INITIAL, drop anything else.
+                    if self._quic_logger is not None:
+                        self._quic_logger.log_event(
+                            category="transport",
+                            event="packet_dropped",
+                            data={
+                                "trigger": "unexpected_packet",
+                                "raw": {"length": header.packet_length},
+                            },
+                        )
+                    return
                 crypto_frame_required = True
                 self._network_paths = [network_path]
                 self._version = header.version
